@@ -702,3 +702,20 @@ def s15(ctx):
                           "the redirects of /.well-known/caldav, /.well-known/carddav and '/' point to '/dav', which the application mounted at "
                           "'/dav/' answers with 404 - discovery ends at its first hop" % (u.lineno, src(u.ast)[:50].split("\n")[0])))
     return obs
+
+
+@rule("C18", "S16", floor=1, kind="N",
+      desc="hrefs the server returned are served: only a path COMPONENT equal to `.git` routes a request away from the DAV "
+           "handlers (same obligations as C09/K11) - a substring test sends principals like 'joe.github' to the git handler")
+def s16(ctx):
+    from .c09 import k11
+    return k11(ctx)
+
+
+@rule("C18", "S17", floor=4, kind="N",
+      desc="current-user-principal stays inside the mount point: every urljoin base in the DAV layer is slash-terminated, and "
+           "the principal path is made relative before it is resolved against the route prefix (same obligations as C16/J1) - "
+           "urljoin('/dav', 'user/') is '/user/', outside the mount, and discovery stops at its first step")
+def s17(ctx):
+    from .c16 import j1
+    return j1(ctx)
